@@ -10,7 +10,7 @@ RULE = ("starting message (API-built or parsed from wire bytes) + up to 40 edits
         "before every edit, max_size tight; a case is non-trivial when the start was accepted "
         "and >= 2 edits succeeded on the implementation; distinct = distinct case lines")
 
-STEP = re.compile(r"^(?:start=(\S+)|([01])) \[(.*?)\] b=(\S+) rp=(=|\[.*?\])( SPECDIFF@\S+)?$")
+STEP = re.compile(r"^(?:start=(\S+)|([01])) \[(.*?)\] b=(\S+) h=(\S+) rp=(=|\[.*?\])( SPECDIFF@\S+)?$")
 
 
 def parse_out(out):
@@ -22,17 +22,17 @@ def parse_out(out):
         if not m:
             return None
         steps.append((m.group(1) if m.group(1) is not None else int(m.group(2)), m.group(3),
-                      m.group(4), m.group(5)))      # (ret, dump, buffer, re-parse verdict)
+                      m.group(4), m.group(6), m.group(5)))   # (ret, dump, buffer, re-parse, header)
     res = {"start": steps[0][0], "steps": steps, "wire": None, "reparse": None, "dup": None}
     for s in segs[1:]:
         m = re.match(r"^wire=(\S+) reparse=\[(.*?)\]$", s)
         if m:
             res["wire"], res["reparse"] = m.group(1), m.group(2)
             continue
-        m = re.match(r"^dup=(NULL|\[(.*?)\] b=(\S+) rp=(=|\[.*?\]))( SPECDIFF@\S+)?$", s)
+        m = re.match(r"^dup=(NULL|\[(.*?)\] b=(\S+) h=(\S+) rp=(=|\[.*?\]))( SPECDIFF@\S+)?$", s)
         if m:
             res["dup"] = "NULL" if m.group(1) == "NULL" else m.group(2)
-            res["dup_rp"] = m.group(4)
+            res["dup_rp"] = m.group(5)
             continue
         return None
     return res
@@ -80,13 +80,22 @@ def oracle(line, out, in_scope, notes=None):
     steps_scope = in_scope if isinstance(in_scope, list) else [in_scope] * (len(edits) + 2)
     in_scope = steps_scope[len(edits)]
     for i, e in enumerate(edits):
-        r, dump, _, _ = o["steps"][i + 1]
+        r, dump = o["steps"][i + 1][0], o["steps"][i + 1][1]
         note = [] if notes is not None else None
         er, ed = gen_edit.spec_step(d, mx, e, note)
         if r != er or dump != gen_edit.fmt_dump(ed):
             return ("edit %d (%s): returned %s, message [%s]; the edit applied to the message "
                     "before it gives %s, [%s]" % (i + 1, " ".join(e)[:80], r, dump, er,
                                                   gen_edit.fmt_dump(ed)))
+        hdr = o["steps"][i + 1][4]
+        if hdr != "-":
+            dd = gen_edit.parse_dump(dump)
+            tl = gen_edit.plen(dd["k"])
+            exp = "%02x%02x%04x" % (0x40 | (dd["t"] << 4) | (tl if tl < 13 else 13 if tl < 269 else 14),
+                                    dd["c"], dd["m"])
+            if hdr != exp:
+                return ("after edit %d (%s) the header in memory is %s, the message [%s] needs %s" %
+                        (i + 1, " ".join(e)[:80], hdr, dump, exp))
         can = canonical(dump)
         if can is not None and not can.startswith("#") and o["steps"][i + 1][2] != can:
             return ("after edit %d (%s) the message is [%s] but the buffer holds %s, not its "
@@ -110,6 +119,28 @@ def oracle(line, out, in_scope, notes=None):
         if notes is not None:
             notes.append("dup:" + ("null" if exp is None else "filter" if dup[4] != "N" else "copy"))
     return None
+
+
+def coq_oracle_queries(line, out):
+    """for every step whose dump before, dump after and edit value are printed in full: a query for
+    the EXTRACTED specification (model command c04o) and what the implementation showed"""
+    if "[" not in out.split(" | ")[0]:
+        return []
+    o = parse_out(out)
+    if o is None:
+        return []
+    pre, edits, _ = gen_edit.split_case(line)
+    if len(o["steps"]) != len(edits) + 1:
+        return []
+    qs = []
+    for i, e in enumerate(edits):
+        before, after = o["steps"][i][1], o["steps"][i + 1][1]
+        val = e[-1] if e[0] != "R" else "-"
+        if "#" in before or "#" in after or (val.startswith("@") and int(val[1:].split(",")[0]) > 48):
+            continue
+        qs.append(("c04o %s %s %s" % (pre[3], before, " ".join(e)),
+                   "%d [%s]" % (o["steps"][i + 1][0], after), i + 1))
+    return qs
 
 
 def scope_of(model_out):
@@ -138,6 +169,25 @@ def sweep_lines(tier):
                 continue
             # insert n before K (K's delta K -> dn), then remove it again (dn -> K)
             out.append("c04 udp 1 0 B 0 1 1 O %d %s D 01 E I %d %s R %d" % (k, v, n, ["-", "@14,3"][k % 2], n))
+    return out
+
+
+def small_scope_lines(tier):
+    """every start with two options numbered in a boundary set x every single edit aimed at the same
+    set: all delta-class transitions with a neighbour on either side, systematically"""
+    S = [0, 1, 12, 13, 14, 268, 269, 270, 281, 282, 283, 537, 538, 539, 65535] if tier == "quick" else \
+        [0, 1, 2, 12, 13, 14, 25, 26, 27, 268, 269, 270, 271, 281, 282, 283, 537, 538, 539, 540, 807,
+         808, 65266, 65267, 65534, 65535]
+    out = []
+    for i, a in enumerate(S):
+        for b in S[i:]:
+            pre = "c04 udp 1 0 B 0 1 1 O %d 61 O %d - D 01 E" % (a, b)
+            for n in S:
+                out.append("%s I %d -" % (pre, n))
+                out.append("%s I %d @13,1 R %d" % (pre, n, a))
+                out.append("%s U %d @14,2" % (pre, n))
+            out.append("%s R %d R %d" % (pre, a, b))
+            out.append("%s R %d R %d" % (pre, b, a))
     return out
 
 
@@ -172,7 +222,7 @@ def main(run):
                        "option values and tokens <= 65804 bytes, option numbers <= 65535"]
     run.prove()
     model = vlib.build_model()
-    drv = vlib.build_driver("h_edit", ["h_edit.c"])
+    drv = vlib.build_driver("h_edit", ["h_edit.c"], wraps=["coap_realloc_type"])
     if getattr(run, "replay", None):
         lines = [l[6:].strip() for l in open(run.replay) if l.startswith("case: ")] or \
             [l.strip() for l in open(run.replay) if l.startswith("c04 ")]
@@ -200,6 +250,8 @@ def main(run):
         cases.append(gen_edit.line_of(pre, edits, dup))
     nsw = len(cases)
     cases += sweep_lines(run.tier)
+    nss = len(cases)
+    cases += small_scope_lines(run.tier)
     nrs = len(cases)
     cases += resize_lines(r, 2000 if run.tier == "quick" else 40000)
     # three separate runs: a crash storm in one group must not starve the others
@@ -212,7 +264,10 @@ def main(run):
     run.cov["driver_crashes"] = len(crashes)
     notrun = sum(1 for x in oc if x == "<not run>")
     run.cov["not_run"] = notrun
-    run.cov["leaf_sweep"] = {"cases": len(cases) - nsw,
+    run.cov["small_scope"] = {"cases": nrs - nss,
+                              "over": "two options numbered in a boundary set (all pairs) x one or two "
+                                      "edits {insert, insert+remove, update, remove both} aimed at the same set"}
+    run.cov["leaf_sweep"] = {"cases": nss - nsw,
                              "over": "single option K, insert K-d / remove again, d in {1,12,13,268,269,K}, "
                                      + ("every K in 1..65535" if run.tier == "thorough" else
                                         "K in 1..699 and every 97th K up to 65535")}
@@ -305,15 +360,43 @@ def main(run):
                               "coap_pdu_check_resize differs from the proved model",
                               "case: %s\nmodel: %s\nimpl : %s\n" % (ln, mo, co),
                               tag="resize%d" % nbad, no_input=not bad)
+    # the extracted Coq specification as the oracle, on the implementation's own dumps (all steps
+    # whose values are printed in full)
+    qs = []
+    for i, ln in enumerate(cases[:nrs]):
+        for q, shown, step in coq_oracle_queries(ln, oc[i]):
+            qs.append((q, shown, step, ln))
+    if qs:
+        ans, _ = vlib.run_lines_robust(model, [q[0] for q in qs])
+        nq = 0
+        for (q, shown, step, ln), a in zip(qs, ans):
+            if a != shown:
+                nq += 1
+                nbad += 1
+                if nq <= 2:
+                    run.violation("implementation violates the property (extracted specification as "
+                                  "oracle): edit %d gives %s, the specification gives %s" % (step, shown, a),
+                                  "case: %s\nquery: %s\nimpl : %s\nspec : %s\n" % (ln, q, shown, a),
+                                  tag="coqoracle%d" % nq)
+        run.cov["coq_oracle_steps"] = len(qs)
+        run.cov["coq_oracle_failures"] = nq
     run.cov["disagreements"] = nbad
     if notrun and not nbad:
         run.violation("the C driver could not complete %d cases (too many crashes)" % notrun,
                       "not run: %d cases\n" % notrun, tag="notrun", no_input=True)
     run.cov["corpus_cases"] = len(corpus)
     if run.tier == "thorough":
+        # independent re-check of the compiled proofs (coqchk: kernel only, reports axioms)
+        rc, out = vlib.sh(["coqchk", "-silent", "-o", "-Q", ".", "LibcoapV", "LibcoapV.Properties_C04"],
+                          cwd=vlib.COQ, timeout=1800, check=False)
+        ok = rc == 0 and "* Axioms: <none>" in out
+        run.cov["coqchk"] = "ok, axioms: none" if ok else out[-600:]
+        if not ok:
+            run.violation("coqchk does not accept Properties_C04.vo (or finds axioms)", out[-4000:],
+                          tag="coqchk", no_input=True)
         # the same generated cases under ASan+UBSan (library instrumented): a wrong memmove length or
         # a stale pointer after realloc traps even where the bytes happen to come out right
-        adrv = vlib.build_driver("h_edit", ["h_edit.c"], variant="asan")
+        adrv = vlib.build_driver("h_edit", ["h_edit.c"], variant="asan", wraps=["coap_realloc_type"])
         sub = cases[:nsw]
         oa, cra = vlib.run_lines_robust(adrv, sub, env={"ASAN_OPTIONS": "detect_leaks=0:abort_on_error=0"})
         nd = 0
